@@ -6,7 +6,7 @@
    the cACG minoriser; and, with no hypothesis about the M-step left, the whole EM iteration of the diagonal-covariance
    GMM (theorems C02_gmm_diagonal_...). *)
 From Coq Require Import Reals Lra.
-From PB Require Import Ops CLin Model.EM Model.Loglik Proofs.EM Proofs.EMAscent Proofs.Loglik Proofs.GMMAscent Proofs.GMMRefine.
+From PB Require Import Ops CLin Model.EM Model.Loglik Proofs.EM Proofs.EMAscent Proofs.Loglik Proofs.GMMAscent Proofs.GMMRefine Proofs.GMMSphAscent.
 From PB Require Import Model.GMMLoop.
 Open Scope R_scope.
 
@@ -103,6 +103,22 @@ Theorem C02_gmm_loop_model_monotone (K' D N : nat) (tiny tinyw : R) (y : nat -> 
   <= mloglik K' D N y (gmm_fit RO K' D N tiny tinyw (2 * PI) y (S j) g0).
 Proof. intros Ht HN HG. eapply gmm_fit_monotone; eauto. Qed.
 Print Assumptions C02_gmm_loop_model_monotone.
+
+(* the same for the SPHERICAL-covariance GMM (one variance vs k per class; its density is the diagonal one with the D
+   variances tied): Bayes posterior, then weight_sal / g_mean / g_cov_sph (the pooled variance) never decrease the
+   log-likelihood, for every K, D >= 1, N, data and current model *)
+Theorem C02_gmm_spherical_em_step_ascent (K' D N : nat) (tiny epsw : R) (y : nat -> nat -> R)
+    (w : nat -> R) (mu : nat -> nat -> R) (vs : nat -> R) :
+  0 < tiny -> (0 < N)%nat -> (0 < D)%nat -> (forall k, (k < S K')%nat -> 0 < w k) -> rsum (S K') w = 1 ->
+  (forall k, (k < S K')%nat -> 0 < vs k) ->
+  (forall k, (k < S K')%nat -> tiny <= rsum N (fun n => gam K' D y w mu (fun k0 _ => vs k0) n k)) ->
+  (forall k, (k < S K')%nat -> 0 < vs' K' D N tiny y w mu vs k) ->
+  loglik N (S K') (fun _ => 1) (joint D y w mu (fun k _ => vs k))
+  <= loglik N (S K') (fun _ => 1)
+       (joint D y (w' K' D N epsw y w mu (fun k _ => vs k)) (mu' K' D N tiny y w mu (fun k _ => vs k))
+              (fun k _ => vs' K' D N tiny y w mu vs k)).
+Proof. intros Ht HN HD Hw Hs Hv Hm Hv2. eapply gmm_sph_em_step_ascent; eauto. Qed.
+Print Assumptions C02_gmm_spherical_em_step_ascent.
 
 (* the guard of the GMM theorems is met by a concrete two-class model *)
 Example C02_gmm_guard_satisfiable : gmm_guard 1 1 2 (/ 2) (/ 2) ex_y ex_t.
